@@ -204,6 +204,7 @@ func checkC09(c *Ctx) {
 
 	// (5) reporting clamp: wherever RecvSeqId of a description is set from cached marks it is max(recv, read)
 	c.checkReportClamp()
+	c.checkStoredMarksReportedClamped()
 	// each recipient gets its own copy of the {info} payload (it is renamed per recipient)
 	c.R.Scoped(func(rule, construct string) bool { return strings.Contains(construct, "Info") }, c.checkMessageCopyIsDeep)
 }
